@@ -328,9 +328,19 @@ def anchors_tables(ctx, r):
         r.ok("anchors|kind", "withheld ⇔ haystack anchors ∨ (crlf ? LF anchors : CRLF anchors) (16 rows)", fn=h)
     # non_matching_bytes(): which removals run
     ebn = ExprBuilder(nb)
+    AS_B = ("grep_matcher::LineTerminator::as_bytes", "grep_matcher::LineTerminator::as_byte")
     rem = [c for c in nb.calls() if c.path.endswith("ByteSet::remove")]
-    rem_term = [c for c in rem if mentions_call(ebn.operand(c.args[1]), "grep_matcher::LineTerminator::as_bytes", "grep_matcher::LineTerminator::as_byte")]
+    rem_term = [c for c in rem if mentions_call(ebn.operand(c.args[1]), *AS_B)]
     rem_all = [c for c in rem if c not in rem_term]
+    # a removal inside a closure handed to an iterator (`bytes.iter().for_each(|&b| set.remove(b))`) happens where the
+    # closure is consumed; what it removes is what the iterator yields
+    for g_ in facts.closures_of(nb.path):
+        if not any(c.path.endswith("ByteSet::remove") for c in g_.calls()):
+            continue
+        for c in nb.calls():
+            ops_ = [ebn.operand(a_) for a_ in c.args]
+            if any(x.k == "closure" and x[1] == g_.path for o_ in ops_ for x in walk(o_)):
+                (rem_term if any(mentions_call(o_, *AS_B) for o_ in ops_) else rem_all).append(c)
     nm_wrong, ml_wrong = [], []
     for hay, lf, ca, crlf in _it.product([0, 1], repeat=4):
         for term in (1, 0):
@@ -738,32 +748,36 @@ def gate_rule(ctx, r):
     k = facts.fn("<%s::matcher::RegexMatcher as grep_matcher::Matcher>::find_candidate_line" % R)
     ebk = ExprBuilder(k)
     LMK = "grep_matcher::LineMatchKind"
-    arms, info = W.variant_arms(k, ebk, lambda e: mentions_field(e, R + "::matcher::RegexMatcher", "fast_line_regex"))
-    if "Some" in arms and ("None" in arms or info):
-        tn = arms.get("None", info[0][3])
-        rs = C.reach(k, [arms["Some"]]) - C.reach(k, [tn])
-        rn = C.reach(k, [tn]) - C.reach(k, [arms["Some"]])
-        clos_s = [facts.fns.get(st["rv"]["closure"]) for bb, j, st in k.stmts() if bb in rs and st["k"] == "assign" and
-                  st["rv"]["k"] == "agg" and "closure" in st["rv"]]
+    # value table over fast_line_regex ∈ {None, Some}: which engine runs and which label its answer gets (a match, an
+    # if-let, a let-else or combinators read the same)
+    from ..flow import table as _table
+    RM = R + "::matcher::RegexMatcher"
 
-        def makes(fnobj, variant):
-            return any(st["k"] == "assign" and st["rv"]["k"] == "agg" and st["rv"].get("adt") == LMK and st["rv"]["variant"] == variant
-                       for bb, j, st in fnobj.stmts())
-        cand = any(g_ is not None and makes(g_, "Candidate") for g_ in clos_s) or \
-            any(st["k"] == "assign" and st["rv"]["k"] == "agg" and st["rv"].get("adt") == LMK and st["rv"]["variant"] == "Candidate"
-                for bb, j, st in k.stmts() if bb in rs)
-        conf_args = [eb_.k for eb_ in []]
-        conf = any(c.bb in rn and c.path.endswith("Option::map") and
-                   any(x.k == "fnref" and x[1].endswith("LineMatchKind::Confirmed") for x in walk(ebk.operand(c.args[1])))
-                   for c in k.calls()) or \
-            any(st["k"] == "assign" and st["rv"]["k"] == "agg" and st["rv"].get("adt") == LMK and st["rv"]["variant"] == "Confirmed"
-                for bb, j, st in k.stmts() if bb in rn)
-        real = any(c.bb in rn and c.func.get("name") == "shortest_match" for c in k.calls())
-        cross = any(c.bb in rs and c.func.get("name") in ("shortest_match", "find", "is_match") and c.func.get("trait") for c in k.calls())
-        if cand and conf and real and not cross:
-            r.ok("candidate-line", "Candidate only from the literal regex, Confirmed only from the full matcher", fn=k)
-        else:
-            r.bad("candidate-line", "find_candidate_line mislabels its answers (candidate %s, confirmed %s via real matcher %s)"
-                  % (cand, conf, real), fn=k, construct="candidate")
-    else:
+    def makes(fnobj, variant, blocks=None):
+        return any(st["k"] == "assign" and st["rv"]["k"] == "agg" and st["rv"].get("adt") == LMK and st["rv"]["variant"] == variant
+                   for bb, j, st in fnobj.stmts() if blocks is None or bb in blocks)
+
+    def labelled(sx, variant):
+        if makes(k, variant, sx.exec_blocks):
+            return True
+        for bb, j, st in k.stmts():
+            if bb in sx.exec_blocks and st["k"] == "assign" and st["rv"]["k"] == "agg" and "closure" in st["rv"]:
+                g_ = facts.fns.get(st["rv"]["closure"])
+                if g_ is not None and makes(g_, variant):
+                    return True
+        return any(c.bb in sx.exec_blocks and any(x.k == "fnref" and x[1].endswith("LineMatchKind::" + variant)
+                                                  for a_ in c.args for x in walk(ebk.operand(a_))) for c in k.calls())
+    res = {}
+    for row, sx in _table(facts, k, fields={(RM, "fast_line_regex"): [V("None", None), V("Some", None)]}):
+        mode = row[("field", (RM, "fast_line_regex"))][1]
+        real = any(c.bb in sx.exec_blocks and c.func.get("name") in ("shortest_match", "find", "is_match", "find_at", "shortest_match_at")
+                   and (c.func.get("trait") or c.path.startswith(RM)) for c in k.calls())
+        res[mode] = (labelled(sx, "Candidate"), labelled(sx, "Confirmed"), real)
+    import json as _json
+    if '"fast_line_regex"' not in _json.dumps(k.mir) or "Some" not in res:
         r.bad("candidate-line", "anchor-missing: find_candidate_line must branch on fast_line_regex", fn=k)
+    elif res["Some"] == (True, False, False) and res["None"] == (False, True, True):
+        r.ok("candidate-line", "Candidate only from the literal regex, Confirmed only from the full matcher", fn=k)
+    else:
+        r.bad("candidate-line", "find_candidate_line mislabels its answers (with a literal regex: candidate %s, confirmed %s, real matcher %s; "
+              "without: candidate %s, confirmed %s, real matcher %s)" % (res["Some"] + res["None"]), fn=k, construct="candidate")
